@@ -1077,6 +1077,87 @@ func ruleCmpShape(c *Ctx) {
 				}
 			})
 		}
+		// a null is not an object: the decoder turns the text null into a nil member map without
+		// an error, so the object form must test each decoded map for nil, and reject, before the
+		// maps are compared (v5: C03 requires inputs that are not objects to be rejected)
+		if b.Name == "v5" {
+			n := 0
+			allInstrs(co, func(i ssa.Instruction) {
+				al, ok := i.(*ssa.Alloc)
+				if !ok {
+					return
+				}
+				if _, isMap := derefPtr(al.Type()).Underlying().(*types.Map); !isMap {
+					return
+				}
+				// is it a decode target?
+				target := false
+				var uses []*ssa.Call
+				for _, ref := range *al.Referrers() {
+					switch x := ref.(type) {
+					case *ssa.MakeInterface:
+						for _, r2 := range *x.Referrers() {
+							if call, ok := r2.(*ssa.Call); ok && len(errResultOf(call)) > 0 {
+								target = true
+							}
+						}
+					case *ssa.Call:
+						if len(errResultOf(x)) > 0 {
+							target = true
+						}
+					case *ssa.UnOp:
+						for _, r2 := range *x.Referrers() {
+							if call, ok := r2.(*ssa.Call); ok {
+								if _, isB := call.Call.Value.(*ssa.Builtin); !isB {
+									uses = append(uses, call)
+								}
+							}
+						}
+					}
+				}
+				if !target || len(uses) == 0 {
+					return
+				}
+				n++
+				key := fmt.Sprintf("%s: decoded member map #%d is tested for nil, and a null input rejected, before the maps are compared", b.roleNameOf(co), n)
+				bad := ""
+				for _, use := range uses {
+					guarded := false
+					for _, bb := range co.Blocks {
+						iff, isIf := lastInstr(bb).(*ssa.If)
+						if !isIf {
+							continue
+						}
+						x, nnTrue, isNil := nilTestOfCond(iff.Cond)
+						if !isNil {
+							continue
+						}
+						ld, isLd := x.(*ssa.UnOp)
+						if !isLd || ld.X != ssa.Value(al) {
+							continue
+						}
+						nn := 1
+						if nnTrue {
+							nn = 0
+						}
+						if edgeDominates(bb, nn, use.Block()) && b.rejects(bb.Succs[1-nn]) {
+							guarded = true
+						}
+					}
+					if !guarded {
+						bad = "the map filled by the decode is handed to " + calleeLabel(&use.Call) + " at " + b.posOf(use) + " without a nil test whose nil edge returns an error: the text null decodes into a nil map without an error, so a null input (or a null array element) is diffed as an empty object instead of rejected"
+					}
+				}
+				if bad != "" {
+					l.add("R-CMPSHAPE", b.Name, key, b.posOf(al), Violated, bad, true)
+				} else {
+					l.add("R-CMPSHAPE", b.Name, key, b.posOf(al), Discharged, "every use of the decoded map lies behind its != nil edge, and the nil edge returns an error", true)
+				}
+			})
+			if n == 0 {
+				l.add("R-CMPSHAPE", b.Name, b.roleNameOf(co)+": decoded member maps are tested for nil", b.rel(co.Pos()), Undecided, "no decode into a local member map found in the object form", false)
+			}
+		}
 		// the array form encodes a slice that is never nil: two empty arrays give [] and not null
 		{
 			key := "createArrayMergePatch: the encoded result is a non-nil slice (two empty arrays give [], not null)"
